@@ -221,33 +221,47 @@ def run_ref(cfg):
     return snap.everything(sim)
 
 
-def run_history(cfg, hist, rng):
-    """ run the same configuration under a different process history; returns a snapshot """
+def _gstate():
+    return (np.random.get_state(), pyrandom.getstate())
+
+
+def _grestore(st):
+    np.random.set_state(st[0]); pyrandom.setstate(st[1])
+
+
+def run_history(cfg, hist, rng, shield=False):
+    """ run the same configuration under a different process history; returns a snapshot.
+        `shield=True` replays the same history but puts the process-global generators (NumPy legacy, stdlib random) back
+        to what they were before the intervening events: a difference that disappears under the shield came through
+        those generators and through nothing else; one that remains came through another channel. """
     import starsim as ss
     kind = hist['kind']
+    keep = (lambda: _gstate()) if shield else (lambda: None)
+    back = (lambda st: _grestore(st)) if shield else (lambda st: None)
     if kind == 'perturb-before-run':
         sim = make_sim(cfg)
-        np.random.random(hist['n']); pyrandom.random()
+        st = keep(); np.random.random(hist['n']); pyrandom.random(); back(st)
         sim.run(); return snap.everything(sim)
     if kind == 'perturb-at-boundary':
         sim = make_sim(cfg)
         k = min(hist['k'], len(sim.loop.plan) - 1)
         for _ in range(k): sim.loop.run_one_step()
-        np.random.random(hist['n']); pyrandom.random()
+        st = keep(); np.random.random(hist['n']); pyrandom.random(); back(st)
         sim.run(); return snap.everything(sim)
     if kind == 'other-sim-between':
         sim = make_sim(cfg)
-        other = make_sim(hist['other']); other.run()
+        st = keep(); other = make_sim(hist['other']); other.run(); back(st)
         sim.run(); return snap.everything(sim)
     if kind == 'other-sim-before':
-        other = make_sim(hist['other']); other.run()
-        np.random.random(3)
+        st = keep(); other = make_sim(hist['other']); other.run()
+        np.random.random(3); back(st)
         sim = make_sim(cfg); sim.run(); return snap.everything(sim)
     if kind == 'twin-copy':
         import sciris as sc
         sim = make_sim(cfg)
         twin = sc.dcp(sim)
-        sim.run(); twin.run(); return snap.everything(twin)
+        st = keep(); sim.run(); back(st)
+        twin.run(); return snap.everything(twin)
     raise ValueError(kind)
 
 
@@ -296,17 +310,24 @@ def gen_history(rng, cfg):
     return h
 
 
-def attribute(cfg, what, channel='global-generator'):
+def attribute(cfg, what, channel='global-generator', hist=None):
     """ Turn a differential failure into failures whose signatures name what is responsible.
-        A reader of the global NumPy generator explains the difference only if perturbing that generator ALONE changes
-        the results of this configuration; otherwise the difference came through another channel (hash seed, class-level
-        state left by another simulation, …) and is reported under that channel, never under a reader's name. """
+        A reader of the process-global generators explains the difference exactly when the same history, replayed with
+        those generators put back to their earlier state after the intervening events (`shield`), gives the reference
+        results again; when it still differs, the difference came through another channel (hash seed, class-level state
+        left by another simulation, …) and is reported under that channel, never under a reader's name.  Where no
+        shielded replay exists (fresh interpreter), a reader is blamed only if perturbing the global generator ALONE
+        changes the results of this configuration. """
     explained = False
     try:
         ref = run_ref(cfg)
-        for h in (dict(kind='perturb-before-run', n=5, k=1), dict(kind='perturb-at-boundary', n=3, k=7)):
-            if snap.diff(ref, run_history(cfg, h, None)):
-                explained = True; break
+        if hist is not None:
+            explained = not snap.diff(ref, run_history(cfg, hist, None, shield=True))
+        else:
+            for h in (dict(kind='perturb-before-run', n=5, k=1), dict(kind='perturb-at-boundary', n=3, k=7),
+                      dict(kind='perturb-at-boundary', n=11, k=3), dict(kind='perturb-at-boundary', n=2, k=40)):
+                if snap.diff(ref, run_history(cfg, h, None)):
+                    explained = True; break
     except Exception:
         explained = False
     if explained:
@@ -346,7 +367,7 @@ def search(ctx):
             ctx.count('oracle_exceptions'); continue
         ctx.count('differential_runs'); ctx.count('history:' + hist['kind'])
         if msg:
-            for f in attribute(cfg, msg, channel=hist['kind']):
+            for f in attribute(cfg, msg, channel=hist['kind'], hist=hist):
                 ctx.fail(f['signature'], f['what'], dict(kind='diff', cfg=cfg, hist=hist))
     # fresh interpreter / other hash seed (expensive: few)
     for k in range(ctx.budget(3, 12)):
